@@ -80,3 +80,10 @@ add('C01', 'Hypothesis generated mode / species parameter sets + textbook refere
     'reassignment equals a fresh object; all 13 point-group labels (exhaustive) and every G2 molecule under rigid motions and atom permutations. Exploration (finite sweeps exhaustive).',
     'Trusted: constants (C12), vf/ref.py formulas; Debye derivative relations judged at 1e-4; the known Debye integrand defect is recognised by its exact 9 Theta/4T signature only.',
     'DESIGN.md 3/C01')
+add('C04', 'Hypothesis generated (object, getter, unit, options) tuples + metamorphic oracle: dimensional value = dimensionless value (same options) x R(unit) (x T) (/ molar mass)',
+    'Mode objects, StatMech, Nasa, Nasa9, Shomate species and Reaction / ChemkinReaction / SurfaceReaction objects are asked for every dimensional quantity (Cv, Cp, U, H, S, F, G, E and '
+    'state / delta / activation forms) in every unit accepted by the gas-constant table and its per-g / per-kg forms, under pressure, coverage, S_elements, use_references, verbose, rev, '
+    'act and per-species options, with scalar and array T; each value must equal the dimensionless getter called with the same options times R in that unit (times T for energies, divided '
+    'by the molar mass summed by the harness for per-mass units). Exploration only.',
+    'Trusted: constants.R values (C12); a KeyError from constants.R / the documented AttributeError for per-mass units where unsupported is an accepted refusal.',
+    'DESIGN.md 3/C04')
